@@ -65,25 +65,50 @@ Definition teneye_identity_ok (A : dense Qc) (m n : nat) (x : list Qc) : bool :=
 
 (* ---- whole-call checks for sptensor.from_function / sptenrand (request normalisation included) ---- *)
 Inductive sobs := SRej | SCrash | SOk (o : sparse Z).
-(* the request as the property reads it: any count up to the tensor size; a value below one is a density *)
-Definition norm_request_spec (total : nat) (p : Z) (q : positive) : option nat :=
-  let t := Z.of_nat total in
-  if (p <? 0)%Z || (t * Zpos q <? p)%Z then None
-  else if (p <? Zpos q)%Z then Some (Z.to_nat (- ((- (t * p)) / Zpos q)))
-  else Some (Z.to_nat (p / Zpos q)).
-(* pyttb must agree either with the faithful model (request normalisation as coded, redraw loop on the captured
-   draws, raw stored lists, number of draws consumed; a zero count crashes) or with what the property asks
-   (well-formed, requested shape, exactly the requested number of nonzeros) *)
+(* the trigger regions of the two OPEN findings, computed from the case itself:
+   C20-N3 — the request equals the tensor size: the code rejects what the property admits (impl None, spec Some);
+   A-46   — the FIRST captured draw has a repeated scaled row (only then can the redraw loop end short) *)
+Definition n3_region (cnt_impl cnt_spec : option nat) : bool :=
+  match cnt_impl, cnt_spec with None, Some _ => true | _, _ => false end.
+Definition a46_region (cnt_impl : option nat) (s : shape) (draws : list (list (list Z))) : bool :=
+  match cnt_impl, draws with
+  | Some nz, d :: _ => negb (Nat.eqb (length (cand s d)) nz)
+  | _, _ => false
+  end.
+(* pyttb must agree with the faithful model of the REPAIRED code (request normalisation, redraw loop on the captured
+   draws, raw stored lists, number of draws consumed; a zero count gives the empty tensor).  Only inside the trigger
+   region of an open finding is the property's own requirement accepted as an alternative (a repaired pyttb stays
+   silent there): well-formed, requested shape, exactly the requested number of nonzeros. *)
 Definition sprand_call_ok (cnt_impl cnt_spec : option nat) (s : shape) (draws : list (list (list Z))) (vals : list Z)
            (ndraws : nat) (obs : sobs) : bool :=
   match cnt_impl, obs with
   | None, SRej => true
-  | Some O, SCrash => true
-  | Some (S n), SOk o => sprand_agrees (S n) s draws vals ndraws o
+  | Some nz, SOk o => sprand_agrees nz s draws vals ndraws o
   | _, _ => false
   end
-  || match cnt_spec, obs with
-     | None, SRej => true
-     | Some nz, SOk o => sprand_spec nz s o
-     | _, _ => false
-     end.
+  || ((n3_region cnt_impl cnt_spec || a46_region cnt_impl s draws) &&
+      match cnt_spec, obs with
+      | None, SRej => true
+      | Some nz, SOk o => sprand_spec nz s o
+      | _, _ => false
+      end).
+
+(* ---- ill-formed requests (sizes as Z: negative sizes can be written down) ---- *)
+Definition zshape_ok (s : list Z) : bool := forallb (fun d => (0 <=? d)%Z) s.
+Definition to_shape (s : list Z) : shape := map Z.to_nat s.
+(* tenones / tenzeros / tenrand / tensor.from_function: numpy rejects a negative size, ttb.tensor the empty shape *)
+Definition dense_gen_guard (s : list Z) : bool := zshape_ok s && negb (Nat.eqb (length s) 0).
+Definition ztenones_chk (s : list Z) : option (dense Z) := if dense_gen_guard s then ztenones (to_shape s) else None.
+Definition ztenzeros_chk (s : list Z) : option (dense Z) := if dense_gen_guard s then ztenzeros (to_shape s) else None.
+(* teneye(ndims, size): even positive order, non-negative size *)
+Definition teneye_guard (m n : Z) : bool := Z.even m && (0 <? m)%Z && (0 <=? n)%Z.
+(* tendiag / sptendiag with a shape that may hold non-positive sizes: every size is raised to max(N, dim), so such a
+   request is ACCEPTED and enlarged ("if provided shape is too small the tensor will be enlarged to accommodate") *)
+Definition pyttb_diag_shape (N : nat) (s : list Z) : shape := map (fun d => Z.to_nat (Z.max (Z.of_nat N) d)) s.
+(* ... which is the shape rule applied to the shape with its negative sizes clamped to zero (Proofs/C20Guards.v) *)
+Definition ztendiag_z (e : list Z) (so : option (list Z)) : dense Z := ztendiag e (option_map to_shape so).
+Definition zsptendiag_z (e : list Z) (so : option (list Z)) : sparse Z := zsptendiag e (option_map to_shape so).
+(* sptendiag hands the constructed shape to the sptensor constructor, which rejects a size below one: this can only
+   happen when there is no element at all (N = 0) and the requested shape holds a non-positive size *)
+Definition zsptendiag_chk (e : list Z) (s : list Z) : option (sparse Z) :=
+  if forallb (fun d => (0 <? Z.max (Z.of_nat (length e)) d)%Z) s then Some (zsptendiag_z e (Some s)) else None.
